@@ -18,8 +18,12 @@ import os
 from io import BytesIO
 from typing import Any, Dict, List, Optional, Tuple
 
+import logging
+
 from harness import common as C
 from harness.pdfwriter import HexStr, Name, Ref, build_pdf
+
+logging.getLogger("pdfminer").setLevel(logging.ERROR)
 
 LEVEL = "proof"
 RULE = ("labels: random number trees (leaf-only, balanced, degenerate chains, combs, random splits; direct and "
